@@ -1477,6 +1477,13 @@ def prepare_dump(data: IOData, allow_changes: bool, filename: str) -> IOData:
     schema_name = data.extra["schema_name"]
     if schema_name == "qcschema_basis":
         raise PrepareDumpError(f"{schema_name} not yet implemented in IOData.", filename)
+    if schema_name not in ("qcschema_molecule", "qcschema_input", "qcschema_output"):
+        # Refuse before the file is opened: the writer can only fail on an unknown schema name.
+        raise PrepareDumpError(
+            "'schema_name' must be one of 'qcschema_molecule', 'qcschema_basis', "
+            f"'qcschema_input' or 'qcschema_output', got {schema_name!r}.",
+            filename,
+        )
     return data
 
 
